@@ -5,7 +5,6 @@ import (
 	"io"
 	"os"
 	"path/filepath"
-	"sync"
 
 	storelib "github.com/uber/kraken/lib/store"
 	"github.com/uber/kraken/lib/store/base"
@@ -72,10 +71,6 @@ func verifSameBytes(a, b []byte, n int) bool {
 
 type verifC12Cfg struct {
 	writable bool
-	// zeroLenGapWrites: include zero-length writes whose start offset lies
-	// beyond the current end (see FINDINGS.md); the passing harnesses leave
-	// exactly that case out.
-	zeroLenGapWrites bool
 }
 
 // verifC12Step applies one symbolic operation to both objects and compares
@@ -131,9 +126,6 @@ func verifC12Step(sut, ref verifBuf, cfg verifC12Cfg, maxLen, maxOff int) {
 	case 3: // Size only (checked below for every operation)
 	case 4: // Write
 		n := verif.Len("wlen", 0, maxLen)
-		if n == 0 && !cfg.zeroLenGapWrites {
-			verif.Assume(pos <= size)
-		}
 		p := verif.Bytes("wdata", n)
 		w := sut.(verifBufW)
 		n1, _ := w.Write(p)
@@ -144,14 +136,12 @@ func verifC12Step(sut, ref verifBuf, cfg verifC12Cfg, maxLen, maxOff int) {
 	case 5: // WriteAt
 		n := verif.Len("walen", 0, maxLen)
 		off := int64(verif.Len("waoff", -1, maxOff))
-		if n == 0 && !cfg.zeroLenGapWrites {
-			verif.Assume(off <= size)
-		}
 		p := verif.Bytes("wadata", n)
 		w := sut.(verifBufW)
 		n1, _ := w.WriteAt(p, off)
 		n2, _ := ref.(verifBufW).WriteAt(p, off)
 		verif.Cover("writeat-leaves-gap", verif.And(n > 0, off > size))
+		verif.Cover("empty-writeat-beyond-end", verif.And(n == 0, off > size))
 		verif.Cover("writeat-negative", off < 0)
 		verif.Assert("writeat-count", n1 == n2)
 	}
@@ -182,18 +172,6 @@ func verifC12Run(sut, ref verifBuf, cfg verifC12Cfg, k, maxLen, maxOff int) {
 
 // ---- sequences from the freshly created buffer -------------------------
 
-func verifNewMemoryFile(c int) *File {
-	arr := make([]byte, 0, c) // as memory.store.Create does
-	return newFile(&arr, &sync.RWMutex{})
-}
-
-// VerifMemoryFileVsOSFile: memory.File as created by the store, k operations.
-func VerifMemoryFileVsOSFile() {
-	c := verif.Len("capacity", 0, verif.Bound("capacity", 2, 3))
-	verifC12Run(verifNewMemoryFile(c), verifRefFile(nil), verifC12Cfg{writable: true},
-		verif.Bound("ops", 2, 3), verif.Bound("len", 2, 2), verif.Bound("off", 3, 3))
-}
-
 // VerifBufferReadWriterVsOSFile: base.BufferReadWriter (aws.WriteAtBuffer)
 // as created by NewBufferReadWriter, k operations.
 func VerifBufferReadWriterVsOSFile() {
@@ -211,23 +189,6 @@ func VerifBufferReadWriterVsOSFile() {
 // bytes symbolic) and apply one arbitrary operation, which together with the
 // from-fresh harnesses above covers histories of any length over states
 // within the size bounds.
-
-// VerifMemoryFileStep: one operation on a memory.File in an arbitrary state.
-func VerifMemoryFileStep() {
-	maxContent := verif.Bound("content", 3, 5)
-	n := verif.Len("content_len", 0, maxContent)
-	spare := verif.Len("spare_capacity", 0, verif.Bound("spare", 2, 3))
-	off := verif.Len("start_offset", 0, n)
-	content := verif.Bytes("content", n)
-	arr := make([]byte, n, n+spare)
-	copy(arr, content)
-	sut := newFile(&arr, &sync.RWMutex{})
-	sut.off = int64(off)
-	ref := verifRefFile(content)
-	_, err := ref.Seek(int64(off), io.SeekStart)
-	verif.Assert("ref-seek", err == nil)
-	verifC12Run(sut, ref, verifC12Cfg{writable: true}, 1, verif.Bound("len", 2, 3), verif.Bound("off", 5, 7))
-}
 
 // VerifBufferReadWriterStep: one operation on a BufferReadWriter brought (by
 // one WriteAt and one Seek) into an arbitrary state.
